@@ -108,6 +108,10 @@ func FuncName(f *types.Func) string {
 	if f == nil {
 		return ""
 	}
+	fname := f.Name()
+	if v, ok := funcAlias.Load(f); ok {
+		fname = v.(string) // an unexported function that was merely renamed keeps its snapshot name (align.go)
+	}
 	sig, _ := f.Type().(*types.Signature)
 	if sig != nil && sig.Recv() != nil {
 		t := sig.Recv().Type()
@@ -117,13 +121,15 @@ func FuncName(f *types.Func) string {
 			t = pt.Elem()
 		}
 		if n, ok := t.(*types.Named); ok {
-			return "(" + ptr + shortPkg(n.Obj().Pkg()) + "." + n.Obj().Name() + ")." + f.Name()
+			return "(" + ptr + shortPkg(n.Obj().Pkg()) + "." + n.Obj().Name() + ")." + fname
 		}
 		// method of an interface literal / embedded interface
-		return "(" + ptr + t.String() + ")." + f.Name()
+		return "(" + ptr + t.String() + ")." + fname
 	}
-	return shortPkg(f.Pkg()) + "." + f.Name()
+	return shortPkg(f.Pkg()) + "." + fname
 }
+
+var funcAlias sync.Map // *types.Func → snapshot name of a renamed function
 
 // Callee resolves the function object called (static functions, methods incl. interface methods).
 func Callee(info *types.Info, call *ast.CallExpr) *types.Func {
@@ -215,7 +221,7 @@ func (p *Prog) FieldKey(info *types.Info, e ast.Expr) string {
 	if v == nil {
 		return ""
 	}
-	return p.FieldOwner(v) + "." + v.Name()
+	return p.FieldOwner(v) + "." + RoleOf(v)
 }
 
 // ObjOf returns the object an identifier refers to (use or def).
